@@ -832,7 +832,7 @@ def suite_validate(tier, seed, pid="RELAY", entry="relay.validate"):
                 f[k] = rng.choice([0, 1, 100, "7", None, -1, 2145934799, 2145934800, True])
         for k in ("#e", "#p", "#t"):
             if rng.random() < 0.3:
-                f[k] = [rng.choice(["a", "b", "", "a", 1, None]) for _ in range(rng.randint(0, 3))] if rng.random() < 0.9 else "x"
+                f[k] = [rng.choice(["a", "b", "", "a", 1, None, "AB" * 32, "aB" * 32, "ab" * 32, "Ab" * 16]) for _ in range(rng.randint(0, 3))] if rng.random() < 0.9 else "x"
         if rng.random() < 0.1:
             f[rng.choice(keys)] = rng.choice(RAW_POOL)
         cases.append(f)
@@ -1078,6 +1078,70 @@ def suite_exhaustive(tier, seed, backend="sql", pid="RELAY"):
     for script in scripts:
         for slots in itertools.product(range(B), repeat=(2 * len(script) if tier != "thorough" else 4)):
             case, impl, health = env.run(one(script, slots))
+            cases.append(case)
+            impls.append(impl)
+            healths.append(health)
+    outs = model_batch("relay.run", cases, pid=pid)
+    for case, impl, health, mo in zip(cases, impls, healths, outs):
+        compare(s, case, impl, health, mo)
+    return s
+
+
+# ------------------------------------------------------------------ directed scripts
+def suite_scripted(tier, seed, backend="sql", pid="RELAY"):
+    """short directed message scripts (re-REQ with only unusable filters, replacement, limit 0, the subscription limit) with and
+    without background steps, against the model"""
+    s = Suite("trace:scripted-%s" % backend)
+    s.rule = ("directed scripts on two connections: REQ s F then REQ s with only unusable filters then a matching EVENT; REQ s twice then CLOSE then "
+              "EVENT; three subscriptions under a limit of two; filters with limit 0 alone and next to others; CLOSE of an id never opened; each run "
+              "with no background step, with every query task stepped to its end at once, and with one step between messages; transcripts, registry "
+              "and pending tasks vs the relay model")
+    evs = [env.mk_event(i % 3, 1, env.NOW - 50 + i, [["t", "x" if i % 2 else "y"]], "sc%d" % i) for i in range(6)]
+    F1, F2 = {"kinds": [1]}, {"#t": ["x"]}
+    BAD = [{"kinds": "x"}, {"ids": ["zz"]}, 5, {"since": -1}]
+    scripts = [
+        [(0, ["REQ", "s", F1]), (1, ["EVENT", evs[2]]), (0, ["REQ", "s", BAD[0]]), (1, ["EVENT", evs[3]])],
+        [(0, ["REQ", "s", F1]), (0, ["REQ", "s", BAD[1], BAD[3]]), (1, ["EVENT", evs[3]]), (0, ["CLOSE", "s"]), (1, ["EVENT", evs[4]])],
+        [(0, ["REQ", "s", F1]), (0, ["REQ", "s", F1]), (1, ["EVENT", evs[2]]), (0, ["CLOSE", "s"]), (1, ["EVENT", evs[3]])],
+        [(0, ["REQ", "a", F1]), (0, ["REQ", "b", F2]), (0, ["REQ", "c", F1]), (1, ["EVENT", evs[3]]), (0, ["REQ", "a", BAD[2]]), (1, ["EVENT", evs[5]])],
+        [(0, ["REQ", "z", {"kinds": [1], "limit": 0}]), (1, ["EVENT", evs[2]]), (0, ["REQ", "m", {"kinds": [7], "limit": 0}, {"kinds": [1], "limit": 10}]), (1, ["EVENT", evs[3]])],
+        [(0, ["CLOSE", "never"]), (0, ["REQ", "s", F2]), (0, ["CLOSE", "other"]), (1, ["EVENT", evs[3]])],
+    ]
+    cases, impls, healths = [], [], []
+
+    async def one(script, mode):
+        d = Driver(backend, sub_limit=2, max_limit=50)
+        await d.start()
+        await d.open(0)
+        await d.open(1)
+        await d.msg(1, ["EVENT", evs[0]])
+        await d.msg(1, ["EVENT", evs[1]])
+        for (c, m) in script:
+            await d.msg(c, m)
+            steps = {"none": 0, "one": 1, "all": 50}[mode]
+            for _ in range(steps):
+                rs = d.running_subs()
+                if not rs:
+                    break
+                await d.row(*rs[0])
+            if mode != "none":
+                while d.pending:
+                    await d.notify(0)
+        while d.pending:
+            await d.notify(0)
+        for _ in range(50):
+            rs = d.running_subs()
+            if not rs:
+                break
+            await d.row(*rs[0])
+        tr = d.transcripts()
+        ops, regs, npending = d.ops, d.registries, len(d.pending)
+        health = await d.finish()
+        return {"cfg": {"sub_limit": 2, "max_limit": 50, "kv": backend != "sql", "auth": False}, "ops": ops}, \
+               {"transcripts": tr, "registries": regs, "pending": npending}, health
+    for script in scripts:
+        for mode in ("none", "one", "all"):
+            case, impl, health = env.run(one(script, mode))
             cases.append(case)
             impls.append(impl)
             healths.append(health)
